@@ -439,8 +439,13 @@ func (m *Muxer) Start() error {
 
 // Close closes a Muxer.
 func (m *Muxer) Close() {
+	// mark the muxer and its streams as closed before waking up pending requests,
+	// otherwise a request may find its stream still open and sleep forever
 	m.mutex.Lock()
 	m.closed = true
+	for _, stream := range m.streams {
+		stream.closed = true
+	}
 	m.mutex.Unlock()
 
 	m.cond.Broadcast()
